@@ -27,6 +27,9 @@ impl Target {
 #[derive(Default)]
 struct SeqStats {
     ok_ops: Vec<&'static str>,
+    fails: Vec<(&'static str, u64)>,
+    zero_ops: u64,
+    skips: Vec<(&'static str, &'static str)>,
     borrow_ok: bool,
     accrued_interest: bool,
     removal_after_accrual: bool,
@@ -60,14 +63,18 @@ fn run_case(target: Target, spec: &WorldSpec, ops: &[Op], stats: &mut SeqStats, 
     for op in ops {
         let pre: StoreSnap = r.snap.clone();
         let step = r.step(op);
-        let post = if matches!(op, Op::Wait { .. }) { r.snap.clone() } else { r.refresh_snapshot() };
+        let post = if matches!(op, Op::Wait { .. } | Op::Distress { .. } | Op::Price { .. }) { r.snap.clone() } else { r.refresh_snapshot() };
         let mut findings = vec![];
         findings.extend(c01_step(&mut m.c01, &pre, &post, &step));
         findings.extend(c02_step(&mut m.c02, &pre, &post, &step));
         findings.extend(c16_step(&mut m.c16, &pre, &post, &step, &r.w));
         findings.extend(c17_step(&mut m.c17, &pre, &post, &step, &r.w));
         // statistics for the non-trivial rules
-        if step.ok && !step.skipped {
+        let zero_amount = matches!(step.op, Op::Deposit { .. } | Op::Withdraw { all: false, .. } | Op::Borrow { .. } | Op::Repay { all: false, .. }) && step.amount == 0;
+        if step.ok && !step.skipped && zero_amount {
+            stats.zero_ops += 1;
+        }
+        if step.ok && !step.skipped && !zero_amount {
             stats.ok_ops.push(step.op.name());
             match &step.op {
                 Op::Borrow { .. } => stats.borrow_ok = true,
@@ -101,6 +108,12 @@ fn run_case(target: Target, spec: &WorldSpec, ops: &[Op], stats: &mut SeqStats, 
                     }
                 }
             }
+        }
+        if let Some((_, code)) = step.err {
+            stats.fails.push((step.op.name(), code));
+        }
+        if step.skipped {
+            stats.skips.push((step.op.name(), step.skip_why));
         }
         if let (Some(bi), Some((_, code))) = (step.bank, step.err) {
             let _ = bi;
@@ -159,11 +172,20 @@ pub fn run_target(ctx: &Ctx, target: Target) -> Report {
                 rep.eval();
                 rep.add_extra("ops_executed", ops.len() as u64);
                 rep.add_extra("ops_succeeded", stats.ok_ops.len() as u64);
+                rep.add_extra("zero_amount_ops", stats.zero_ops);
                 for n in &notes {
                     rep.label(&format!("note:{n}"));
                 }
                 for o in &stats.ok_ops {
                     rep.label(&format!("ok:{o}"));
+                }
+                for (o, c) in &stats.skips {
+                    rep.label(&format!("skip:{o}:{c}"));
+                }
+                for (o, c) in &stats.fails {
+                    if matches!(*o, "liquidate" | "bankruptcy" | "receivership" | "flashloan" | "borrow") {
+                        rep.label(&format!("fail:{o}:{c}"));
+                    }
                 }
                 if nontrivial(target, &stats) {
                     let w = json!({"ok": stats.ok_ops, "banks": spec.banks.len(), "tok": spec.banks.iter().map(|b| b.token).collect::<Vec<_>>()});
